@@ -402,7 +402,7 @@ def run(tier):
     g2 = tlc.run("C05", "Sb31Gen", "Sb31Gen.cfg", env={"GEN_MODE": "sim", "GEN_FULL": 0, "GEN_MAXCMDS": 8}, workers=1, deadlock=False, heap="8g",
                  simulate=f"num={400 if quick else 6000}", depth=12, timeout=600)
     sim = dedupe(g2.json_prints())
-    if len(tour) < 3000 or len(sim) < (200 if quick else 3000):
+    if len(tour) < 2000 or len(sim) < (200 if quick else 3000):
         raise Machinery(f"case GEN produced only {len(tour)} + {len(sim)} cases\n{g2.out[-1500:]}")
     cases = tour + sim
     # histories x a seeded sample of configurations (every history with every class of configuration in the thorough tier)
@@ -413,7 +413,7 @@ def run(tier):
 
     # ---- run everything on the real code (parallel), executor on every exported file
     allc = cases + hcases
-    keep = set(r.sample(range(len(cases)), 40 if quick else 300))
+    keep = set(r.sample(range(len(cases)), 40 if quick else 160))
     res = pmap(lambda ic: execute(plan_of(ic[1]), ic[0], keep_bytes=ic[0] in keep), list(enumerate(allc)), chunksize=32)
     traces = [t for ts in res for t in ts]
     v.count(len(traces))
@@ -444,7 +444,7 @@ def run(tier):
     if len(kept) < 10:
         say(f"[C05] note: only {len(kept)} accepted files available for tampering")
     small = sorted(kept, key=lambda t: len(t["file"]))[:1 if quick else 4]
-    jobs = [(t, 2 if quick else 6, ("hdr.", "cert.header", "cert.rkr_flags", "cert.isk_header") if t in small else ()) for t in kept]
+    jobs = [(t, 2 if quick else 4, ("hdr.", "cert.header", "cert.rkr_flags", "cert.isk_header") if t in small else ()) for t in kept]
     if not quick:
         jobs += [(t, 1, ("",)) for t in small[:2]]  # every bit of two whole files
     tam = [x for xs in pmap(lambda j: tamper_traces(j[0], j[1], rng(PROP, "tamper", j[0]["id"]), j[2]), jobs, chunksize=2) for x in xs]
